@@ -6,6 +6,7 @@ let suites : (string * (string -> string)) list = [
   ("icept", Suite_parse.run);
   ("reg", Suite_parse.run);
   ("print", Suite_print.run);
+  ("gram", Suite_gram.run);
 ]
 
 let () =
